@@ -502,6 +502,24 @@ def run_reader_case(case, scratch, refs=None):
             obs.append({'op': op, 'out': out, 'exc': ecls, 'flags': fl, 'files': fo, 'temps': tp, 'before': before,
                         'gone': gone})
     oracle_reader(case, nodes, obs, fail)
+    # the other read entry points of the phase-history / received-data readers (per-vector parameters, support arrays): after close
+    # they raise like read() does, they do not return data
+    if case['root']['k'] == 'filereader' and case.get('fkind') in ('CPHD', 'CRSD') and b.objs and b.objs[0] is not None:
+        o_ = b.objs[0]
+        if not getattr(o_, 'closed', False):
+            call(o_.close)
+        if getattr(o_, 'closed', False):
+            aux = [('read_pvp_array(0)', lambda: o_.read_pvp_array(0)), ('read_pvp_variable(first field, 0)', None), ('read_pvp_block()', lambda: o_.read_pvp_block()),
+                   ('read_support_block()', lambda: o_.read_support_block()), ('read_signal_block()', lambda: o_.read_signal_block())]
+            for nm_, fn_ in aux:
+                if fn_ is None or not hasattr(o_, nm_.split('(')[0]):
+                    continue
+                out_, ecls_, v_ = call(fn_)
+                has_data = isinstance(v_, numpy.ndarray) or (isinstance(v_, dict) and any(isinstance(x_, numpy.ndarray) and x_.size for x_ in v_.values()))
+                if out_ == 'ok' and has_data:
+                    fail('', f"{case['fkind']} reader: {nm_} after close() returned data instead of raising", len(case['ops']))
+                v_ = None
+        o_ = None
     # cleanup
     for f in (b.files or []):
         try:
@@ -1663,6 +1681,13 @@ def run(tier):
             if c['machine'] in 'CBD' and c['machine'] not in xsamples and len(c['ops']) > 3:
                 xsamples[c['machine']] = case_line(c) + '  ->  ' + ' '.join(trace)[:300]
         # the conversion route to a writer (Converter / conversion_utility): same existence clause, target built from directory + name
+        try:
+            aux_fails, aux_n, aux_used = c19x.aux_reads_after_close(scratch, rng)
+        except Exception as e_:
+            aux_fails, aux_n, aux_used = [{'key': '', 'step': 0, 'case': {'machine': 'R', 'ops': []}, 'msg': f'CPHD product with support arrays could not be written / opened: {type(e_).__name__}: {e_}'}], 0, []
+        for f_ in aux_fails:
+            f_['hist_keys'] = [f_['key']] if f_['key'] else ['']
+        fails.extend(aux_fails)
         conv_fails, conv_n = c19x.converter_existence(scratch)
         for f_ in conv_fails:
             f_['hist_keys'] = ['']
@@ -1690,6 +1715,7 @@ def run(tier):
     chk.coverage.update({
         'evaluations': len(cases) + conv_cases + sh['evaluations'],
         'converter_existence_cases': conv_cases,
+        'reads_after_close_through_other_entry_points': {'count': aux_n, 'entry_points': aux_used},
         'distinct_nontrivial': len(classes),
         'rule': 'random op histories (length <= 12; read / write-chunk / flush / close / context exit with and without '
                 'exception / del+gc) over: random segment trees (array, memmap, file-read, HDF5 leaves sharing caller file objects; '
